@@ -77,6 +77,9 @@ CHECKS = {
  "C13": dict(cat="model_checking", tech="exhaustive enumeration of dependency graphs replayed against an abstract table-store model + real create/drop traces of run() recorded by a catalog-diff connection proxy",
    text="Every dependency graph within the bound (<=4 statements thorough / <=3 quick, <=2 global inputs, fan-in <=2, all persistent masks, several textual orders) is scheduled by the real DAGAnalyzer and the schedule replayed against a model store (loaded at most once, resident when read, released exactly once after the last reader, store empty at the end); the same invariants are checked on real traces of run() and the returned result selection.",
    note="Model = tables as names; traces observe catalog diffs after each non-SELECT call. Bound-exhaustive only.", ref="§3 C13"),
+ "C16": dict(cat="fault_enumeration", tech="exhaustive fault injection at every call on the DuckDB connection (counting proxy installed at duckdb.connect) + real faults + Hypothesis stateful sequences of failing and good runs",
+   text="For every configuration (script, CSV/DataFrame inputs, output folder, in-memory/file-backed) every one of the K connection calls is a fault point; after each failing run: no session directory, no database file, connection closed, no fd into the temp dir, and a following good run equals the reference; plus malformed inputs, unwritable output folder, invalid engine settings and sequences of up to 3 failures.",
+   note="Faults are injected at the Python boundary of the connection; native-level faults are not simulated. Quick tier enumerates all fault points of a rotating subset of configurations, thorough of all 128.", ref="§3 C16"),
 }
 NOT_YET = "check not built yet in this session (work in progress, see DESIGN.md §5)"
 
